@@ -744,6 +744,11 @@ try
     for (auto const &arg: args)
       iterations *= arg.size ();
 
+    // If any of the arguments yields no value at all, there is nothing to
+    // run the query on, and thus nothing can match.
+    if (iterations == 0)
+      return 1;
+
     if (iterations > 1)
       with_header = true;
     if (no_header)
